@@ -59,3 +59,157 @@ Theorem C20_wire_passed : forall s typ mid tok code ro rc o p,
   exists r, o_out (snd (step s (Req typ mid tok code ro (BResp rc o p)))) = [r] /\ w_code r = rc /\ w_tok r = tok /\ w_pay r = p.
 Proof. exact wire_passed. Qed.
 Print Assumptions C20_wire_passed.
+
+(* ---- requests that pass through block-wise transfer (NoResp/BwModel.v: udp/client.Conn with the
+   net/blockwise layer between the connection and the handler) ---- *)
+From GoCoap Require Import Base.Bytes Gen.BlockConsts Block.Model NoResp.BwModel NoResp.BwProofs.
+
+(* the layer is transparent for a plain request (no block option, no response transfer under the token,
+   response body shorter than a block): the step is the one of Dedup/Model.v, so C20_wire_suppressed /
+   C20_wire_passed hold with the layer switched on *)
+Theorem C20_bw_plain_is_step : forall c s typ mid tok code o pay b,
+  tget (sndc (layer s)) tok = None ->
+  has_opt o Block1ID = false -> has_opt o Block2ID = false -> 0 <= c_szx c <= 7 ->
+  (forall rc ro p, b = BResp rc ro p -> blen p < size (c_szx c)) ->
+  (forall rc t ro p, b = BMsg rc t ro p -> blen p < size (c_szx c)) ->
+  let e := {| e_typ := typ; e_mid := mid; e_tok := tok; e_code := code; e_opts := o; e_pay := pay; e_beh := b |} in
+  conn (fst (bstep c s e)) = fst (step (conn s) (Req typ mid tok code o b)) /\
+  layer (fst (bstep c s e)) = layer s /\
+  bo_out (snd (bstep c s e)) = o_out (snd (step (conn s) (Req typ mid tok code o b))).
+Proof. exact plain_request_is_step. Qed.
+Print Assumptions C20_bw_plain_is_step.
+
+(* in every state of its caches and for every request, the layer never turns a response that the writer
+   refused into a modified (= sent) one *)
+Theorem C20_bw_refused_untouched : forall c b tok code o pay rc ro p,
+  rw_refuses o rc = true ->
+  b_call (bw_handle c b tok code o pay (BResp rc ro p)) <> None ->
+  b_res (bw_handle c b tok code o pay (BResp rc ro p)) = None.
+Proof. exact refused_untouched. Qed.
+Print Assumptions C20_bw_refused_untouched.
+
+(* wire clause for every request that reaches the handler through the layer (plain, last block of an
+   upload, first request of a download, ...): suppressed => bare ACK (CON) / nothing (NON) *)
+Theorem C20_bw_wire_suppressed : forall c s typ mid tok code o pay rc ro p,
+  req_lookup typ mid (cache (conn s)) = None ->
+  rw_refuses o rc = true ->
+  let e := {| e_typ := typ; e_mid := mid; e_tok := tok; e_code := code; e_opts := o; e_pay := pay; e_beh := BResp rc ro p |} in
+  bo_call (snd (bstep c s e)) <> None ->
+  bo_out (snd (bstep c s e)) = (if typ =? CON then [bare_ack mid] else []).
+Proof. exact bw_wire_suppressed. Qed.
+Print Assumptions C20_bw_wire_suppressed.
+
+(* ... not suppressed (body shorter than a block) => the response goes out with its code, token, payload *)
+Theorem C20_bw_wire_passed_small : forall c s typ mid tok code o pay rc ro p,
+  req_lookup typ mid (cache (conn s)) = None ->
+  rw_refuses o rc = false ->
+  blen p < size (req_maxszx c code o) ->
+  let e := {| e_typ := typ; e_mid := mid; e_tok := tok; e_code := code; e_opts := o; e_pay := pay; e_beh := BResp rc ro p |} in
+  bo_call (snd (bstep c s e)) <> None ->
+  exists r, bo_out (snd (bstep c s e)) = [r] /\ w_code r = rc /\ w_tok r = tok /\ w_pay r = p.
+Proof. exact bw_wire_passed_small. Qed.
+Print Assumptions C20_bw_wire_passed_small.
+
+(* Block1 upload of any number of blocks (first, mids, last): only the last datagram reaches the handler,
+   with the reassembled body and the options of the first block minus Block1/Size1; the writer is the
+   one made of the LAST datagram's options *)
+Theorem C20_bw_upload_reassembles : forall c b tok code beh szx o0 p0 mids ol pl,
+  (code =? POST) || (code =? PUT) = true -> 0 <= szx <= c_szx c -> c_szx c <= 7 ->
+  tget (rcvc b) tok = None ->
+  block1_is o0 szx 0 true -> blen p0 = size szx ->
+  mids_ok szx 1 mids ->
+  block1_is ol szx (1 + blen mids) false ->
+  let x0 := bw_handle c b tok code o0 p0 beh in
+  let f := feed c (b_bw x0) tok code mids beh in
+  let r := bw_handle c (fst f) tok code ol pl beh in
+  b_call x0 = None /\ Forall (fun x => x = None) (snd f) /\
+  b_call r = Some {| hc_code := code; hc_opts := opt_remove (opt_remove o0 Block1ID) Size1ID;
+                     hc_body := p0 ++ concat (map snd mids) ++ pl |} /\
+  tget (rcvc (b_bw r)) tok = None /\
+  (call_handler tok ol beh = None -> b_res r = None) /\
+  (forall h, call_handler tok ol beh = Some h -> blen (h_pay h) < size szx -> b_res r = Some h).
+Proof. exact upload_reassembles. Qed.
+Print Assumptions C20_bw_upload_reassembles.
+
+Theorem C20_bw_upload_suppressed : forall c b tok code szx o0 p0 mids ol pl rc ro p,
+  (code =? POST) || (code =? PUT) = true -> 0 <= szx <= c_szx c -> c_szx c <= 7 ->
+  tget (rcvc b) tok = None ->
+  block1_is o0 szx 0 true -> blen p0 = size szx ->
+  mids_ok szx 1 mids ->
+  block1_is ol szx (1 + blen mids) false ->
+  rw_refuses ol rc = true ->
+  let beh := BResp rc ro p in
+  let x0 := bw_handle c b tok code o0 p0 beh in
+  let f := feed c (b_bw x0) tok code mids beh in
+  let r := bw_handle c (fst f) tok code ol pl beh in
+  (exists hc, b_call r = Some hc /\ hc_body hc = p0 ++ concat (map snd mids) ++ pl) /\ b_res r = None.
+Proof. exact upload_suppressed. Qed.
+Print Assumptions C20_bw_upload_suppressed.
+
+(* ... and what the last datagram of such an upload puts on the wire *)
+Theorem C20_bw_upload_wire_suppressed : forall c s typ mid tok code szx o0 p0 mids ol pl rc ro p,
+  (code =? POST) || (code =? PUT) = true -> 0 <= szx <= c_szx c -> c_szx c <= 7 ->
+  tget (rcvc (layer s)) tok = None ->
+  block1_is o0 szx 0 true -> blen p0 = size szx ->
+  mids_ok szx 1 mids ->
+  block1_is ol szx (1 + blen mids) false ->
+  rw_refuses ol rc = true ->
+  let beh := BResp rc ro p in
+  let x0 := bw_handle c (layer s) tok code o0 p0 beh in
+  let f := feed c (b_bw x0) tok code mids beh in
+  forall cn, req_lookup typ mid (cache cn) = None ->
+  let e := {| e_typ := typ; e_mid := mid; e_tok := tok; e_code := code; e_opts := ol; e_pay := pl; e_beh := beh |} in
+  bo_out (snd (bstep c {| conn := cn; layer := fst f |} e)) = (if typ =? CON then [bare_ack mid] else []).
+Proof. exact upload_wire_suppressed. Qed.
+Print Assumptions C20_bw_upload_wire_suppressed.
+
+(* Block2 download: a response that was not suppressed and needs several blocks: first block ... *)
+Theorem C20_bw_download_first_block : forall c b tok code o pay rc ro p,
+  (code =? GET) || (code =? DELETE) = true -> 0 <= c_szx c <= 6 ->
+  has_opt o Block2ID = false ->
+  tget (sndc b) tok = None ->
+  rw_refuses o rc = false ->
+  size (c_szx c) <= blen p ->
+  let r := bw_handle c b tok code o pay (BResp rc ro p) in
+  exists h, b_res r = Some h /\ h_code h = rc /\ h_tok h = tok /\
+            h_pay h = firstn (Z.to_nat (size (c_szx c))) p /\
+            tget (sndc (b_bw r)) tok = Some {| se_code := rc; se_opts := set_cf ro; se_pay := p |}.
+Proof. exact download_first_block. Qed.
+Print Assumptions C20_bw_download_first_block.
+
+(* ... and every following block, whatever No-Response option the request for it carries *)
+Theorem C20_bw_download_next_block : forall c b tok code o pay beh se szx num more,
+  GET <= code <= DELETE ->
+  get_block o Block2ID = Some {| d_szx := szx; d_num := num; d_more := more; d_err := None |} ->
+  has_opt o Block1ID = false ->
+  0 <= szx <= c_szx c -> c_szx c <= 6 -> 0 <= num <= maxBlockNumber ->
+  tget (sndc b) tok = Some se -> DELETE < se_code se ->
+  num * size szx <= blen (se_pay se) ->
+  let r := bw_handle c b tok code o pay beh in
+  b_call r = None /\
+  exists h, b_res r = Some h /\ h_code h = se_code se /\ h_tok h = tok /\
+            h_pay h = firstn (Z.to_nat (size szx)) (skipn (Z.to_nat (num * size szx)) (se_pay se)).
+Proof. exact download_next_block. Qed.
+Print Assumptions C20_bw_download_next_block.
+
+(* a refused response to a GET/DELETE starts no transfer *)
+Theorem C20_bw_refused_get_no_state : forall c b tok code o pay rc ro p,
+  (code =? GET) || (code =? DELETE) = true ->
+  rw_refuses o rc = true ->
+  b_bw (handle_received c b tok code o pay (BResp rc ro p)) = b.
+Proof. exact refused_get_no_state. Qed.
+Print Assumptions C20_bw_refused_get_no_state.
+
+(* non-vacuity: a three-block PUT (SZX 16) whose blocks carry No-Response = 2, handler answers 2.04:
+   two 2.31 Continue, then nothing for a NON upload / the bare ACK for a CON upload; with 4.00 the
+   response goes out *)
+Example C20_bw_instance :
+  let cf := {| c_szx := 0; c_maxmsg := 65536 |} in
+  let blk typ mid v p rc := {| e_typ := typ; e_mid := mid; e_tok := [7]; e_code := 3; e_opts := [(27, [v]); (258, [2])];
+                               e_pay := gen_body 1 p; e_beh := BResp rc [] [] |} in
+  let outs typ rc := map (fun o => map (fun w => (w_typ w, w_code w, w_tok w)) (bo_out o))
+                         (snd (brun cf (binit 0) [blk typ 10 8 16%nat rc; blk typ 11 24 16%nat rc; blk typ 12 32 5%nat rc])) in
+  outs NON 68 = [[(CON, 95, [7])]; [(CON, 95, [7])]; []] /\
+  outs CON 68 = [[(ACK, 95, [7])]; [(ACK, 95, [7])]; [(ACK, 0, [])]] /\
+  outs NON 128 = [[(CON, 95, [7])]; [(CON, 95, [7])]; [(CON, 128, [7])]].
+Proof. vm_compute. repeat split. Qed.
